@@ -146,9 +146,7 @@ func (r *renderer) stmts(b *strings.Builder, body []Stmt, fns []Fn, plain bool, 
 		case "retrecv":
 			id := r.tick(tickRole{Role: "block", Kind: "recv", Plain: plain})
 			c := fmt.Sprintf("c%d", id)
-			// (the channel is not handed to the host: a receive that delivers a value to a return statement panics,
-			// whatever the cancellation does — an unrelated defect —, so the operation is never completed)
-			fmt.Fprintf(b, "%s%s := make(chan int)\n%sh.RegN()\n%sh.T(%d)\n", ind, c, ind, ind, id)
+			fmt.Fprintf(b, "%s%s := make(chan int)\n%sh.Reg(%s)\n%sh.T(%d)\n", ind, c, ind, c, ind, id)
 			fmt.Fprintf(b, "%sw += func() int { return <-%s }()\n", ind, c)
 		case "lit":
 			fmt.Fprintf(b, "%sfunc() {\n%s\th.T(%d)\n", ind, ind, r.tick(tickRole{Role: "lit"}))
@@ -523,9 +521,8 @@ func repairedFamily() []Prog {
 	p = prog("golit-in-called-fn", loop(3, call(0)), forever(st("work")))
 	p.Fns = []Fn{fnOf(golit(block("send")), st("work"))}
 	ps = append(ps, p)
-	// 50c4f88: a receive that is the operand of a return statement, blocked at the cancellation. What follows it is
-	// never observed (see render), so it is only used where nothing can follow after a cancellation: in main and in
-	// declared functions started by `go f()` (a goroutine started through a function value can be revived: F09-3).
+	// 50c4f88: a receive that is the operand of a return statement, blocked at the cancellation (in declared functions
+	// started by `go f()`, in main, in a function compiled by a plain Eval; the random programs use it anywhere)
 	p = prog("return-recv", spawn(0), st("tick"), spawn(1), forever(st("work")))
 	p.Fns = []Fn{fnOf(st("work"), st("retrecv"), st("tick")), fnOf(call(2), st("work")), fnOf(st("tick"), st("retrecv"))}
 	ps = append(ps, p)
@@ -587,6 +584,8 @@ func randomProg1(r *rand.Rand, name string, cfg genCfg) Prog {
 				out = append(out, golit(append(body(depth+1, self, false, plain), block(blockKinds[r.Intn(5)]))...))
 			case c == 8 && !plain && (self < 0 || !p.Fns[self].Earlier):
 				out = append(out, rec(r.Intn(3)))
+			case c == 9 && r.Intn(3) == 0:
+				out = append(out, st("retrecv"))
 			default:
 				out = append(out, st("work"))
 			}
